@@ -2,7 +2,7 @@
 
    tools/py2v.py (part 6) regenerates on every run the BODY of convert() of
      ApprovalToSimpleVotes (plain and split), RankedToFirstPreference, RankedToApprovalVotes, ScoreToApprovalVotesThreshold,
-     InvertedSimpleVotes, VoteTotals  and of  votelib.util.add_dict_to_dict
+     InvertedSimpleVotes, InvertedApprovalVotes, VoteTotals  and of  votelib.util.add_dict_to_dict
    into Gen/Convert.v: the loops over the ballots (and the loops nested in them) as fold_left, the defaultdict(int) / dict / set
    operations as the primitives of Prelude/PyConv.v.  This file proves that these generated functions ARE the models the C13
    theorems (Props/C13.v: per-ballot exactness, additivity, conservation) are about - the accumulating fold [dconv img] over the
@@ -15,6 +15,8 @@
      GenTie_Convert_add_dict          deq (add_dict_to_dict(d1, d2): d1 afterwards)          (add_dict d1 d2)
      GenTie_Convert_vote_totals       deq (VoteTotals().convert votes)                       (vote_totals votes)
      GenTie_Convert_inverted_simple   InvertedSimpleVotes.convert votes = inv_simple votes   (the keys of a dictionary are distinct)
+     GenTie_Convert_inverted_approval deq (InvertedApprovalVotes.convert votes) (dconv (img_inverted_approval (cands_approval votes)) votes)
+                                      (distinct keys, each frozenset key in its canonical form: then the complements are distinct too)
 
    [deq] (Proofs/Convert2_proofs.v) is dictionary equality in the sense the C13 theorems use: the same keys in the same order with
    equal (==) counts.  All ballots, all counts, all profiles - no hypothesis except the distinct keys of an input dictionary where the
@@ -30,7 +32,7 @@
    equivalent spellings of the source (renamed locals, swapped branches, the test written the other way round) leave the proofs intact. *)
 From Coq Require Import ZArith QArith List Bool Lia Arith.
 From VL Require Import Prelude.Sx Prelude.PyDict Prelude.GDict Prelude.PyNum Prelude.PyList Prelude.PyConv Model.GetNBest
-     Model.Convert Model.Convert2 Proofs.Convert_proofs Proofs.Convert2_proofs Proofs.JR_proofs.
+     Model.Convert Model.Convert2 Proofs.Convert_proofs Proofs.Convert2_proofs Proofs.JR_proofs Proofs.ChainCands_proofs.
 From VL Require Gen.Convert.
 Import ListNotations.
 Open Scope Q_scope.
@@ -191,6 +193,100 @@ Proof.
   rewrite py_dict_of_nodup; [reflexivity|]. unfold keys. rewrite map_map. cbn [fst]. exact H.
 Qed.
 
+(* ---- InvertedApprovalVotes.convert: a dictionary comprehension keyed by the complement of the ballot *)
+Lemma cmem_in_iff c l : cmem c l = true <-> In c l.
+Proof.
+  induction l as [|x l IH]; cbn [cmem In]; [split; [discriminate|tauto]|].
+  rewrite orb_true_iff, IH. unfold ceqb. rewrite Pos.eqb_eq. split; intros [H|H]; auto.
+Qed.
+
+Lemma in_set_diff x a b : In x (set_diff a b) <-> In x a /\ ~ In x b.
+Proof.
+  unfold set_diff. rewrite filter_In, negb_true_iff. split; intros [H1 H2]; (split; [exact H1|]).
+  - intros I. apply cmem_in_iff in I. congruence.
+  - destruct (cmem x b) eqn:E; [|reflexivity]. apply cmem_in_iff in E. contradiction.
+Qed.
+
+Lemma kset_inj l l' : kset l = kset l' -> l = l'.
+Proof.
+  unfold kset. intros H. injection H as H. revert l' H. induction l as [|x l IH]; intros [|y l'] H; try discriminate; [reflexivity|].
+  cbn [map] in H. injection H as H1 H2. rewrite (IH _ H2). f_equal. congruence.
+Qed.
+
+(* the complement within [all] is injective on the canonical ballots inside [all] *)
+Lemma complement_inj all b1 b2 : incl b1 all -> incl b2 all -> canon_set b1 = b1 -> canon_set b2 = b2 ->
+  canon_set (set_diff all b1) = canon_set (set_diff all b2) -> b1 = b2.
+Proof.
+  intros I1 I2 C1 C2 H. rewrite <- C1, <- C2. apply canon_set_ext. intros x.
+  assert (S : forall y, In y (set_diff all b1) <-> In y (set_diff all b2)).
+  { intros y. rewrite <- (proj2 (canon_set_spec (set_diff all b1)) y), <- (proj2 (canon_set_spec (set_diff all b2)) y), H. reflexivity. }
+  split; intros Hx.
+  - destruct (cmem x b2) eqn:E; [apply cmem_in_iff, E|]. exfalso.
+    assert (N : ~ In x b2) by (intros I; apply cmem_in_iff in I; congruence).
+    assert (D : In x (set_diff all b2)) by (apply in_set_diff; split; [apply I1, Hx|exact N]).
+    apply S, in_set_diff in D. destruct D as [_ D]. contradiction.
+  - destruct (cmem x b1) eqn:E; [apply cmem_in_iff, E|]. exfalso.
+    assert (N : ~ In x b1) by (intros I; apply cmem_in_iff in I; congruence).
+    assert (D : In x (set_diff all b1)) by (apply in_set_diff; split; [apply I2, Hx|exact N]).
+    apply S, in_set_diff in D. destruct D as [_ D]. contradiction.
+Qed.
+
+Lemma nodup_map_inj_on {X Y} (f : X -> Y) (l : list X) :
+  NoDup l -> (forall x y, In x l -> In y l -> f x = f y -> x = y) -> NoDup (map f l).
+Proof.
+  induction 1 as [|x l Hx Hl IH]; intros Hf; cbn [map]; constructor.
+  - intros I. apply in_map_iff in I. destruct I as (y & E & Iy). apply Hx.
+    rewrite (Hf x y (or_introl eq_refl) (or_intror Iy) (eq_sym E)). exact Iy.
+  - apply IH. intros a b Ia Ib. apply Hf; right; assumption.
+Qed.
+
+(* distinct one-key images: the accumulating fold lists them, in order *)
+Lemma dconv_single_from {B} (key : B -> sx) (votes : list (B * Q)) : forall acc acc' : fdict,
+  deq acc acc' -> NoDup (keys acc' ++ map (fun bw => key (fst bw)) votes) ->
+  deq (acc ++ map (fun bw => (key (fst bw), snd bw)) votes)
+      (fold_left (fun a bw => fold_left (madd (snd bw)) [(key (fst bw), 1)] a) votes acc').
+Proof.
+  induction votes as [|[b w] votes IH]; intros acc acc' Hd Hn; cbn [map fold_left fst snd].
+  - rewrite app_nil_r. exact Hd.
+  - unfold madd at 2. cbn [fst snd]. rewrite gadd_fresh.
+    + change ((key b, w) :: map (fun bw => (key (fst bw), snd bw)) votes) with ([(key b, w)] ++ map (fun bw => (key (fst bw), snd bw)) votes).
+      rewrite app_assoc. apply IH.
+      * apply Forall2_app; [exact Hd|]. constructor; [|constructor]. split; [reflexivity|]. cbn [snd]. symmetry. apply Qmult_1_l.
+      * unfold keys in *. rewrite map_app. cbn [map fst]. rewrite <- app_assoc. exact Hn.
+    + cbn [map fst snd] in Hn. apply NoDup_remove_2 in Hn. intros I. apply Hn. apply in_or_app. left. exact I.
+Qed.
+
+Lemma tie_inverted_approval (votes : list (list C * Q)) :
+  NoDup (map fst votes) -> Forall (fun bw => canon_set (fst bw) = fst bw) votes ->
+  deq (Gen.Convert.InvertedApprovalVotes_convert votes) (dconv (img_inverted_approval (cands_approval votes)) votes).
+Proof.
+  intros Hn Hc. unfold Gen.Convert.InvertedApprovalVotes_convert. cbv zeta.
+  assert (EA : forall f : list C -> list C, (forall v, f v = v) ->
+               py_frozenset (flat_map f (map fst votes)) = cands_approval votes).
+  { intros f Hf. unfold py_frozenset, cands_approval. f_equal. clear Hn Hc.
+    induction votes as [|[b w] t IH]; cbn [map flat_map fst]; [reflexivity|]. rewrite Hf, IH. reflexivity. }
+  match goal with |- context [py_frozenset (flat_map ?f (map fst votes))] =>
+    rewrite (EA f) by (intros v; cbv beta; apply map_id) end. clear EA. set (all := cands_approval votes).
+  assert (ND : NoDup (map (fun bw : list C * Q => kset (canon_set (set_diff all (fst bw)))) votes)).
+  { rewrite <- (map_map fst (fun b => kset (canon_set (set_diff all b)))). apply nodup_map_inj_on; [exact Hn|].
+    intros b1 b2 I1 I2 E. apply kset_inj in E.
+    assert (SUB : forall b, In b (map fst votes) -> incl b all).
+    { intros b Ib x Hx. unfold all, cands_approval. apply (proj2 (canon_set_spec _)). apply in_flat_map.
+      apply in_map_iff in Ib. destruct Ib as (bw & Eb & Ibw). exists bw. split; [exact Ibw|rewrite Eb; exact Hx]. }
+    assert (CAN : forall b, In b (map fst votes) -> canon_set b = b).
+    { intros b Ib. apply in_map_iff in Ib. destruct Ib as (bw & Eb & Ibw). rewrite Forall_forall in Hc. rewrite <- Eb. apply Hc, Ibw. }
+    apply (complement_inj all); auto. }
+  rewrite py_dict_of_nodup.
+  - rewrite dconv_unfold. unfold img_inverted_approval.
+    apply (deq_trans _ ([] ++ map (fun bw : list C * Q => (kset (canon_set (set_diff all (fst bw))), snd bw)) votes)).
+    + cbn [app]. unfold py_frozenset, set_diff.
+      assert (E : forall l l' : fdict, l = l' -> deq l l') by (intros l l' ->; apply deq_refl). apply E. apply map_ext.
+      intros [b w]. cbn [fst snd]. rewrite map_id. reflexivity.
+    + apply (dconv_single_from (fun b => kset (canon_set (set_diff all b)))); [constructor|]. cbn [keys map app]. exact ND.
+  - unfold keys. rewrite map_map. cbn [fst]. unfold py_frozenset.
+    assert (E : forall l l' : list sx, l = l' -> NoDup l' -> NoDup l) by (intros l l' ->; auto). refine (E _ _ _ ND). apply map_ext. intros [b w]. cbn [fst]. rewrite map_id. reflexivity.
+Qed.
+
 (* ================= the tie theorems ================= *)
 Theorem GenTie_Convert_approval_simple : forall (split : bool) (votes : list (list C * Q)),
   deq (Gen.Convert.ApprovalToSimpleVotes_convert split votes) (dconv (img_approval_simple split) votes).
@@ -217,6 +313,22 @@ Proof. exact tie_vote_totals. Qed.
 Theorem GenTie_Convert_inverted_simple : forall votes : fdict, NoDup (keys votes) ->
   Gen.Convert.InvertedSimpleVotes_convert votes = inv_simple votes.
 Proof. exact tie_inverted_simple. Qed.
+
+Theorem GenTie_Convert_inverted_approval : forall votes : list (list C * Q),
+  NoDup (map fst votes) -> Forall (fun bw => canon_set (fst bw) = fst bw) votes ->
+  deq (Gen.Convert.InvertedApprovalVotes_convert votes) (dconv (img_inverted_approval (cands_approval votes)) votes).
+Proof. exact tie_inverted_approval. Qed.
+
+(* the hypotheses hold of a dictionary of frozensets: distinct keys, each in the canonical form *)
+Example gen_convert_inverted_approval_hyp :
+  let votes := [([1; 2]%positive, 3 # 1); ([2; 3]%positive, 1 # 1); ([], 2 # 1)] in
+  NoDup (map fst votes) /\ Forall (fun bw : list C * Q => canon_set (fst bw) = fst bw) votes /\
+  Gen.Convert.InvertedApprovalVotes_convert votes = [(kset [3]%positive, 3 # 1); (kset [1]%positive, 1 # 1); (kset [1; 2; 3]%positive, 2 # 1)].
+Proof.
+  cbv zeta. split; [|split; [|reflexivity]].
+  - repeat constructor; cbn [In]; intros H; repeat destruct H as [H|H]; try discriminate H; exact H.
+  - repeat constructor.
+Qed.
 
 (* what [run_kind] of Model/Convert2.v answers for a decodable profile is the generated function (the four kinds translated here) *)
 Corollary GenTie_Convert_run_kind : forall (d : fdict),
@@ -259,3 +371,4 @@ Print Assumptions GenTie_Convert_add_dict.
 Print Assumptions GenTie_Convert_vote_totals.
 Print Assumptions GenTie_Convert_inverted_simple.
 Print Assumptions GenTie_Convert_run_kind.
+Print Assumptions GenTie_Convert_inverted_approval.
